@@ -75,17 +75,23 @@ def _world(rng, tag):
             cdef2 = [[name, 1], [b2, -1]]
             n2 = f"F{tag}{i}"
             script.append({'d': 'cls', 'name': n2, 'def': cdef2, 'ref': None, 'quantum': None})
-            punits = [d for d in script if d['d'] == 'derive' and d['cls'] == name]
+            # only declarations the reference bookkeeping accepts (no duplicate symbols)
+            w0 = RW.RefWorld()
+            try:
+                ok = all(w0.apply(x) is None for x in script)
+            except Exception:       # noqa
+                ok = False
+            if not ok:
+                script.pop()
+                continue
             u2 = rng.choice(us2)
-            for d in punits[:4]:
-                w0 = RW.RefWorld()
+            for psym in [s for s in w0.order if w0.units[s]['cls'] == name][:4]:
+                d = {'d': 'derive', 'cls': n2, 'units': [psym, u2], 'sym': None}
                 try:
-                    for x in script:
-                        w0.apply(x)
-                    psym = [s for s in w0.order if w0.units[s]['cls'] == name][punits.index(d)]
-                except Exception:       # noqa
-                    break
-                script.append({'d': 'derive', 'cls': n2, 'units': [psym, u2], 'sym': None})
+                    if w0.apply(d) is None:
+                        script.append(d)
+                except Exception:   # noqa
+                    pass
     # a type without money, derived from the bases
     script.append({'d': 'cls', 'name': f"N{tag}", 'def': [[bases[0][0], 2]], 'ref': None, 'quantum': None})
     return script
